@@ -158,7 +158,9 @@ int libwifi_bss_tag_parser(struct libwifi_bss *bss, struct libwifi_tag_iterator 
                 break;
             case TAG_DS_PARAMETER:
             case TAG_HT_OPERATION:
-                memcpy(&bss->channel, it->tag_data, 1);
+                if (it->tag_header->tag_len >= 1) {
+                    memcpy(&bss->channel, it->tag_data, 1);
+                }
                 break;
             case TAG_RSN:
                 if ((libwifi_bss_handle_rsn_tag(bss, it->tag_data, it->tag_header->tag_len) != 0)) {
@@ -205,7 +207,9 @@ int libwifi_sta_tag_parser(struct libwifi_sta *sta, struct libwifi_tag_iterator 
                                         it->tag_header->tag_len);
                 break;
             case TAG_DS_PARAMETER:
-                memcpy(&sta->channel, it->tag_data, 1);
+                if (it->tag_header->tag_len >= 1) {
+                    memcpy(&sta->channel, it->tag_data, 1);
+                }
                 break;
         }
     } while (libwifi_tag_iterator_next(it) != -1);
